@@ -59,6 +59,8 @@ fn main() {
     let prop = args.get("prop", "C17");
     let table = args.get("table", "layouts");
     let mut rep = Rep::new(&prop, args.num("shard", 0), args.num("nshards", 1), args.m.get("only").cloned());
+    rep.mult = args.num("shardmult", 1).max(1);
+    rep.seed = args.num("seed", 0);
     let seed = args.num("seed", 0);
     let big = args.flag("big");
     let mut extra = J::obj();
